@@ -133,9 +133,11 @@ func fqOps() map[string]opDef {
 	return map[string]opDef{
 		"FeeStd":  fee("standard"),
 		"FeeData": fee("data"),
-		"AddStd":  add("standard", "F1"),
-		"AddStd2": add("standard", "F3"),
-		"AddData": add("data", "F2"),
+		// a fee type the quote does not carry: the lookup fails (and must leave nothing locked behind)
+		"FeeUnknown": fee("priority"),
+		"AddStd":     add("standard", "F1"),
+		"AddStd2":    add("standard", "F3"),
+		"AddData":    add("data", "F2"),
 		"Expiry": {name: "Expiry()",
 			run:  func(w *world) string { return tstr(w.fq.Expiry()) },
 			spec: func(m *model, _ map[string]*model) string { return m.expiry }},
@@ -766,7 +768,7 @@ func keys(fs []rep.Finding) []string {
 
 func scenarios(thorough bool) []scenario {
 	var out []scenario
-	fq := []string{"FeeStd", "FeeData", "AddStd", "AddStd2", "AddData", "Expiry", "UpdExp", "UpdExpPast", "Expired", "Marshal", "Unmarshal", "TxFee"}
+	fq := []string{"FeeStd", "FeeData", "AddStd", "AddStd2", "AddData", "Expiry", "UpdExp", "UpdExpPast", "Expired", "Marshal", "Unmarshal", "TxFee", "FeeUnknown"}
 	// every unordered pair on two threads
 	for i := 0; i < len(fq); i++ {
 		for j := i; j < len(fq); j++ {
@@ -808,6 +810,10 @@ func scenarios(thorough bool) []scenario {
 		for _, l := range []string{"FeeNobody", "QuoteNobody"} {
 			out = append(out, scenario{Name: "lookup-then-write", Kind: "feequotes", Threads: [][]string{{l, w}, {"Fee"}}})
 		}
+	}
+	for _, w := range []string{"AddStd", "UpdExp", "Expired", "Unmarshal", "AddData"} {
+		out = append(out, scenario{Name: "failed-lookup-then-write", Kind: "feequote", Threads: [][]string{{"FeeUnknown", w}, {"FeeStd"}}},
+			scenario{Name: "failed-lookup-then-write", Kind: "feequote", Threads: [][]string{{"FeeUnknown"}, {w, "FeeStd"}}})
 	}
 	out = append(out,
 		scenario{Name: "engine-2", Kind: "engine", Threads: [][]string{{"exec0"}, {"exec1"}}},
@@ -917,7 +923,7 @@ func main() {
 	r.Note("feequote_scenarios_with_a_single_outcome", singleOutcome)
 	r.Sample("schedule", map[string]any{"scenario": scs[13], "schedule": []int{0, 1, 0}})
 	r.Sample("schedule", map[string]any{"scenario": scs[len(scs)-2], "note": "engine: Execute has no lock operations; interleavings reduce to start orders, shared-state writes are caught by the happens-before monitor"})
-	os.Exit(r.Finish("stateless schedule exploration of the real fees.go / interpreter code (instrumented from the working tree at check time) under a cooperative scheduler: scheduling points before every Lock/RLock (a write lock first announces itself, modelling writer preference), at thread start and end; DFS over choice prefixes with iterative preemption bound 0,1,2 and then unbounded, every scenario explored to completion. Scenarios: every unordered pair of the 12 FeeQuote operations (incl. a transaction's fee being computed from the shared quote by the library) on 2 threads, triples of the 6 core operations on 3 threads, 2x2 combinations, every pair (thorough: triple) of 12 FeeQuotes operations incl. operations on the quote it hands out and lookups of an unregistered miner, failed lookups followed by writes, and 2-3 threads calling Execute on one engine with distinct transactions (P2PKH spends, script-only runs, post-genesis conditionals, scripts running through most opcode families, calls that share one option value). Oracles on every schedule: vector-clock happens-before race detection over EVERY access the type-checked instrumentation finds in packages bt, bscript and bscript/interpreter (struct fields reached through a pointer, package-level variables, locals aliasing a map/slice field) plus the harness's own reads of the *Fee values it is handed, deadlock, panics, linearizability against a plain-map sequential model (brute force over orders consistent with real time), every read returns a stored Fee/quote object reading as it was stored and no stored Fee object is modified in place, concurrent verdicts = sequential verdicts; recorded schedules replay deterministically (each finding is re-executed before it is reported)"))
+	os.Exit(r.Finish("stateless schedule exploration of the real fees.go / interpreter code (instrumented from the working tree at check time) under a cooperative scheduler: scheduling points before every Lock/RLock (a write lock first announces itself, modelling writer preference), at thread start and end; DFS over choice prefixes with iterative preemption bound 0,1,2 and then unbounded, every scenario explored to completion. Scenarios: every unordered pair of the 13 FeeQuote operations (incl. the lookup of a fee type the quote does not carry, and a transaction's fee being computed from the shared quote by the library) on 2 threads, triples of the 6 core operations on 3 threads, 2x2 combinations, every pair (thorough: triple) of 12 FeeQuotes operations incl. operations on the quote it hands out and lookups of an unregistered miner, failed lookups (of a miner, of a fee type) followed by writes, and 2-3 threads calling Execute on one engine with distinct transactions (P2PKH spends, script-only runs, post-genesis conditionals, scripts running through most opcode families, calls that share one option value). Oracles on every schedule: vector-clock happens-before race detection over EVERY access the type-checked instrumentation finds in packages bt, bscript and bscript/interpreter (struct fields reached through a pointer, package-level variables, locals aliasing a map/slice field) plus the harness's own reads of the *Fee values it is handed, deadlock, panics, linearizability against a plain-map sequential model (brute force over orders consistent with real time), every read returns a stored Fee/quote object reading as it was stored and no stored Fee object is modified in place, concurrent verdicts = sequential verdicts; recorded schedules replay deterministically (each finding is re-executed before it is reported)"))
 }
 
 // freeRun executes the scenario bodies without the scheduler (real mutexes, real
